@@ -188,6 +188,12 @@ class Store:
                 new = "Some" if tag == "Ok" else "None"
             elif core.re.search(r"Option::<T>::(ok_or|ok_or_else)$", nm) and tag in ("Some", "None"):
                 new = "Ok" if tag == "Some" else "Err"
+            # predicates on a value whose variant is known: `step().is_continue()`, `r.is_ok()`
+            if tag is not None and dl_ in self.flags:
+                m_ = core.re.search(r"::(is_ok|is_err|is_some|is_none|is_continue|is_break)$", nm)
+                if m_:
+                    yes = {"is_ok": ("Ok",), "is_err": ("Err",), "is_some": ("Some",), "is_none": ("None",), "is_continue": ("Continue",), "is_break": ("Break",)}[m_.group(1)]
+                    st[("flag", dl_)] = tag in yes
             if new is not None:
                 st[("var", dl_)] = new
             else:
